@@ -30,3 +30,8 @@ claim('C05', 'path-sensitive typestate analysis (cache / placement-cache states 
       'C05.f Moment indexes written together with combined key caches; C05.g who-may-write circuit/moment storage (foreign stores must be followed by _mutated); '
       'C05.h batch edits all-or-nothing',
       'that insertion indices equal what each strategy documents, zip/concat_ragged/factorize arithmetic, query results on consistent data')
+claim('C06', 'path-sensitive alias/effect analysis with callee summaries (input-not-mutated), taint of context options to guards/arguments, recursion-forwarding and sibling-union coherence rules',
+      'C06.a no transformer-package function mutates a circuit argument; C06.b/c every @transformer consults or forwards tags_to_ignore and deep '
+      '(reasoned table for pure adders/filters); C06.d primitive call sites pass context-derived options; C06.e recursive calls forward all '
+      'options; C06.h component merging unions every summary field',
+      'semantic equivalence of any rewrite (unitary / outcome distribution), commutation logic inside individual transformers')
